@@ -131,6 +131,17 @@ SEEDS = {
  "S45-c03-recursive-get-next-pos": dict(prop="C03", origin="independent sub-agent",
     change="connect_edges: get_next_pos becomes self-recursive (one stack frame per processed event it steps over at a vertex)",
     needs="one vertex where very many result edges meet: e.g. 150 000 disjoint triangles touching only in the origin, united with a small triangle at the origin"),
+ "S46-c06-bbox-disjointness-by-width-sums": dict(prop="C06", origin="independent sub-agent",
+    change="boolean_operation: the disjointness test of the boxes compares the hull's width/height with the sum of the operands' widths/heights",
+    needs="bounding boxes that touch exactly, with non-dyadic coordinates for which the sum of the two widths rounds one ulp below the hull width (about 3 % of one-decimal triples, e.g. 0, 0.2, 0.9): union/xor of the touching rectangles come back unmerged"),
+ "S47-c18-recursive-join-in-remove": dict(prop="C18", origin="independent sub-agent",
+    change="SplayTree::remove joins the two subtrees with a recursive helper (one frame per node of the left subtree's right spine)",
+    needs="a descending chain of >= 5*10^4 keys (2 MiB stack) or 3*10^6 keys (8 MiB) and the removal of a key near the maximum"),
+ "S48-c14-vertical-event-vertical-prev-other": dict(prop="C14", origin="independent sub-agent (same change as S09, found again twice in round 5)",
+    change="as S09", needs="as S09"),
+ "S50-c16-same-operand-t-contact-skipped": dict(prop="C16", origin="independent sub-agent",
+    change="possible_intersection: for two segments of the same operand a meeting point that is an end point of either segment is reported as no intersection",
+    needs="a T contact (end point of one segment in the interior of the other) between two segments of the SAME operand, e.g. two parts of a multipolygon touching in a vertex of one on an edge of the other"),
  "S27-c06-empty-clipping-early-return": dict(prop="C06", origin="independent sub-agent",
     change="boolean_operation: early return of the subject when the clipping operand has no polygons, regardless of the operation",
     needs="intersection with an empty MultiPolygon on the right-hand side"),
